@@ -60,9 +60,11 @@ def write_replay(prop, unit, fails, u):
     json.dump({
         "property": prop, "unit": unit, "kind": "verus-obligation",
         "failed_obligations": [f["obligation"] for f in fails],
-        "counterexample": None,
-        "note": "Verus gives no model: no-failing-input-found. The obligation below verified on the unchanged tree "
-                "(contracts/BASELINE.json) and fails on the current /repo source.",
+        "counterexample": next((f.get("counterexample") for f in fails if f.get("counterexample")), None),
+        "note": ("Kani concrete playback below: a unit test that reproduces the failing values against the spliced real function."
+                 if any(f.get("counterexample") for f in fails) else
+                 "Verus gives no model: no-failing-input-found. The obligation below verified on the unchanged tree "
+                 "(contracts/BASELINE.json) and fails on the current /repo source."),
         "verifier_output": [f["rendered"] for f in fails],
         "functions_as_extracted": fn_texts,
         "meta": u.meta,
@@ -99,8 +101,22 @@ def run_property(prop, tier, seed, rebaseline=False, only_unit=None):
                 u.reason = m.get("prefail", "no template")
                 u.meta = m
                 results.append(u)
+            elif m.get("interface_mismatch"):
+                u = D.UnitResult(n)
+                u.status = "violation"
+                u.meta = m
+                im = m["interface_mismatch"]
+                u.obligations = [{"id": f"{n}::emitted-interface", "fn": "emitted-interface", "ok": False, "time_us": 0, "rlimit": 0, "mode": "interface", "extracted": False}]
+                u.failures = [{"fn": "emitted-interface", "fn_id": None, "tags": [], "message": "postcondition not satisfied (emitted impl defines the wrong set of methods)",
+                               "text": f"expected {im['expected']}, emitted {im['emitted']}", "line": 0, "src": "", "rlimit": False,
+                               "rendered": f"receiver {m.get('declaration')}: expected methods {im['expected']}, emitted {im['emitted']}",
+                               "obligation": f"{n}::emitted-interface::expected {im['expected']} emitted {im['emitted']}"}]
+                results.append(u)
             else:
                 futs.append(ex.submit(D.run_unit, n, t, tier, canaries, reg.get("rlimit"), m))
+        for k in reg.get("kani", []):
+            from . import kani as K
+            futs.append(ex.submit(K.run_kani_unit, k["name"], k["crate"], k["tmpl"], k["harnesses"], k["bounded"]))
         for f in futs:
             results.append(f.result())
     baseline = load_json(BASELINE_PATH, {})
@@ -145,7 +161,7 @@ def run_property(prop, tier, seed, rebaseline=False, only_unit=None):
                                 "backend": "verus+z3", "smt_ms": round(o["time_us"] / 1000, 2), "rlimit": o["rlimit"],
                                 "discharged": o["ok"],
                                 "rewrites": rew[short]["log"] if short in rew and o["extracted"] else []})
-        if u.meta.get("static"):
+        if u.meta.get("static") and not u.meta.get("kani"):
             base = set(baseline.get(u.name, []))
             have = {o["fn"] for o in u.obligations}
             gone = sorted(base - have)
@@ -184,7 +200,7 @@ def run_property(prop, tier, seed, rebaseline=False, only_unit=None):
             if hit:
                 known_hits.append((hit, u.name, f))
             else:
-                if u.meta.get("static") and baseline.get(u.name) is not None:
+                if u.meta.get("static") and not u.meta.get("kani") and baseline.get(u.name) is not None:
                     full = next((o["fn"] for o in u.obligations if o["fn"].split("::")[-1] == f["fn"]), f["fn"])
                     if full not in baseline.get(u.name, []):
                         undecided.append((u.name, f"{f['fn']} fails but is not in the committed baseline (framework drift)"))
@@ -214,7 +230,8 @@ def run_property(prop, tier, seed, rebaseline=False, only_unit=None):
                        "note": "no-failing-input-found: Verus gives no model; each entry is the replay file of one unit whose obligations fail",
                        "units": [{"unit": v[0].name, "replay": v[2], "failed_obligations": [f["obligation"] for f in v[1]][:8]} for v in violations]},
                       open(agg, "w"), indent=1)
-        out_lines.append(f"VIOLATION property={prop} replay={agg} no-failing-input-found")
+        has_cex = all(any(f.get("counterexample") for f in v[1]) for v in violations)
+        out_lines.append(f"VIOLATION property={prop} replay={agg}" + ("" if has_cex else " no-failing-input-found"))
     for name, why in undecided:
         out_lines.append(f"UNDECIDED property={prop} unit={name}: {why}")
     wall = time.time() - t0
